@@ -122,6 +122,11 @@ fn model_print(line: &Line, positions: &[Pos], nums: Option<u64>, style: Style, 
 }
 
 fn check_line(ctx: &mut Ctx, line: &Line, word_len: usize) {
+    check_line_opt(ctx, line, word_len, false)
+}
+
+/// `light`: one stored outcome, move numbers from the board, status shown - all three styles
+fn check_line_opt(ctx: &mut Ctx, line: &Line, word_len: usize, light: bool) {
     ctx.states += 1;
     ctx.add(CHAINS, 1);
     ctx.max(MAXLEN, line.moves.len() as u64);
@@ -322,7 +327,7 @@ fn check_line(ctx: &mut Ctx, line: &Line, word_len: usize) {
         (Some(Outcome::Draw(DrawReason::Agreement)), "1/2-1/2"),
     ];
     let mut c = chain.clone();
-    for (out, token) in outcomes {
+    for (out, token) in outcomes.into_iter().take(if light { 1 } else { 4 }) {
         c.reset_outcome(out);
         for (np, nums) in [
             (NumberPolicy::Omit, None),
@@ -330,9 +335,13 @@ fn check_line(ctx: &mut Ctx, line: &Line, word_len: usize) {
             (NumberPolicy::Custom(0), Some(0)),
             (NumberPolicy::Custom(1), Some(1)),
             (NumberPolicy::Custom(42), Some(42)),
-        ] {
+        ]
+        .into_iter()
+        .skip(if light { 1 } else { 0 })
+        .take(if light { 1 } else { 5 })
+        {
             for style in [Style::San, Style::SanUtf8, Style::Uci] {
-                for (sp, st) in [(GameStatusPolicy::Show, Some(token)), (GameStatusPolicy::Hide, None)] {
+                for (sp, st) in [(GameStatusPolicy::Show, Some(token)), (GameStatusPolicy::Hide, None)].into_iter().take(if light { 1 } else { 2 }) {
                     ctx.add(PRINTED, 1);
                     ctx.transitions += 1;
                     let got = match guarded(|| c.styled(np, style, sp).to_string()) {
@@ -464,6 +473,16 @@ pub fn run(run: &mut Run) {
     run.par_shards(&format!("LONG: {} deterministic lines of up to {} plies x walker sweeps (every step checked) + words <= 2 x all print policies (single deep executions)", ll.len(), uni::long_max(thorough)), ll.len(), |ctx, i| {
         let line = Line { start: ll[i].0, moves: ll[i].1.clone() };
         check_line(ctx, &line, 2);
+    });
+    // SANMANY one-ply lines: several like pieces reach one square; the printed move needs exactly
+    // the standard file / rank / both disambiguation (light printing: three styles)
+    run.par_shards("SANMANY one-ply lines (2..8 like pieces to one square, every subset) x walker words <= 1 x 3 styles", uni::SANMANY_SHARDS, |ctx, sh| {
+        uni::sanmany(sh, &mut |p| {
+            let legal = p.legal();
+            for &m in legal.iter().filter(|m| m.to as usize == sh && kind(p.b[m.from as usize]) != K) {
+                check_line_opt(ctx, &Line { start: *p, moves: vec![m] }, 1, true);
+            }
+        });
     });
     let bl = battery_lines();
     let chunks: Vec<&[Line]> = bl.chunks(256).collect();
